@@ -1116,37 +1116,6 @@ Lemma may_join_unfold e s lc c Off :
     (has_mode 107 (c_modes c) = true -> exists ch, chan_to_lower ch = lc /\ Off ch (c_key c)))).
 Proof. reflexivity. Qed.
 
-(* ---- non-vacuity ----------------------------------------------------------------------------------------------------- *)
-Definition is_chanop_b (sv : server) (k : N * N) (lc : string) : bool :=
-  match sv_sessions sv !! k, sv_channels sv !! lc with
-  | Some s, Some c => match c_nicks c !! nick_to_lower (s_nick s) with Some (true, _) => true | _ => false end
-  | _, _ => false
-  end.
-Lemma is_chanop_b_false sv k lc : is_chanop_b sv k lc = false -> ~ is_chanop sv k lc.
-Proof.
-  unfold is_chanop_b. intros H (s & c & v & Hs & Hc & Hm). rewrite Hs, Hc, Hm in H. discriminate.
-Qed.
-
-(* Foo (session 1) created #chan and is its operator, bar (session 4) joined later and is not *)
-Definition ex_prefix : list entry := firstn 8 Examples.ex_history.
-
-Lemma ex_prefix_EInv sv : run Examples.ex_env (init_server "robustirc.net") ex_prefix = Some sv -> EInv sv.
-Proof.
-  intros H. destruct (run_ok Examples.ex_env (init_server "robustirc.net") ex_prefix (EInv_init _)) as (sv1 & H1 & E1).
-  - apply Examples.wf_history_b_sound. vm_compute. reflexivity.
-  - rewrite H in H1. injection H1 as <-. exact E1.
-Qed.
-
-Example ex_frame_nonvacuous :
-  exists sv sv' out s c,
-    run Examples.ex_env (init_server "robustirc.net") ex_prefix = Some sv /\ EInv sv /\
-    apply_entry Examples.ex_env sv (EMessage 11 11000 4 25 "" "MODE #chan +i-t") = OOk sv' out /\
-    sv_sessions sv !! (4%N, 0%N) = Some s /\ s_server s = false /\ s_operator s = false /\
-    sv_channels sv !! "#chan" = Some c /\ c_nicks c !! "foo" = Some (true, false) /\ c_nicks c !! "bar" = Some (false, false) /\
-    ~ is_chanop sv (4%N, 0%N) "#chan" /\ List.length out = 1 /\ sv_channels sv' !! "#chan" = Some c.
-Proof.
-  eexists _, _, _, _, _. split; [vm_compute; reflexivity|]. split; [apply ex_prefix_EInv; vm_compute; reflexivity|].
-  split; [vm_compute; reflexivity|]. split; [vm_compute; reflexivity|]. split; [reflexivity|]. split; [reflexivity|].
-  split; [vm_compute; reflexivity|]. split; [vm_compute; reflexivity|]. split; [vm_compute; reflexivity|].
-  split; [apply is_chanop_b_false; vm_compute; reflexivity|]. split; vm_compute; reflexivity.
-Qed.
+Print Assumptions line_frame.
+Print Assumptions C13_frame.
+Print Assumptions entry_frame_delete.
